@@ -708,7 +708,7 @@ theorem Inv.closed (A : Ann) (S : Sched.Cfg) (hc : CfgOk A S) : Sched.Closed Sch
       (fun a ps hl => hl.of_eq rfl rfl
         (fun t => projFile_updF_view A s.objs c.key t _ tickInfo_key tickInfo_view)
         (fun t => isSome_updF s.objs c.key t _ tickInfo_key) rfl rfl rfl rfl rfl rfl)
-  done := fun s L prio c now f e _ h _ _ _ _ _ =>
+  done := fun s L prio c now f e _ h _ _ _ =>
     Inv.extend (s := s) (.tdone c.key (now / 1000))
       (fun hb => by rw [nextToi_transferDoneFile] at hb; exact hb) h
       (fun a ps hl => link_done hl c.key now (now / 1000))
@@ -847,7 +847,7 @@ theorem addObject_refused (s : Sched.State) (aa : Sched.AddArgs)
 def newDesc (s : Sched.State) (aa : Sched.AddArgs) : Sched.FileDesc :=
   { key := s.nextToi, isFdt := false, fdtId := 0, content := [], prio := aa.prio, nSym := aa.nSym,
     maxCount := aa.maxCount, carousel := aa.carousel, target := aa.target, allowStop := aa.allowStop,
-    published := false, info := { startTime := aa.start } }
+    published := false, info := { startTime := aa.start }, faults := aa.faults }
 
 theorem addObject_accepted (s : Sched.State) (aa : Sched.AddArgs)
     (h1 : (!(s.sessions.any fun q => q.prio == aa.prio)) = false) (h2 : s.complete = false) :
